@@ -95,7 +95,7 @@ class Sandbox:
         self.root = os.path.join(self.base, "root")
         self.ctl = os.path.join(self.base, "ctl")
         os.makedirs(self.ctl)
-        for d in ("bin", "home", "S/work/proj", "outs", "elsewhere", "ro"):
+        for d in ("bin", "home", "S/work/proj", "outs", "elsewhere", "ro", "decoy_pkg", "decoy_file"):
             os.makedirs(os.path.join(self.root, d))
         os.symlink("proj", os.path.join(self.root, "S/work/proj_link"))
         os.symlink("outs", os.path.join(self.root, "outs_link"))
@@ -108,8 +108,21 @@ class Sandbox:
             with open(p, "w", encoding="utf-8", newline="") as f:
                 f.write(text)
         self.src = os.path.join(self.proj, pkg["src_rel"])
+        # decoys: working directories that hold something else under the name of the analysed top-level package
+        top = pkg.get("top") or pkg["src_rel"].split("/")[0]
+        self._make_decoys(top)
         self.out = os.path.join(self.root, "outs/out")
         self.step_no = 0
+
+    def _make_decoys(self, top: str) -> None:
+        d = os.path.join(self.root, "decoy_pkg", top)
+        os.makedirs(d, exist_ok=True)
+        with open(os.path.join(d, "__init__.py"), "w", encoding="utf-8") as f:
+            f.write("")
+        with open(os.path.join(d, "unrelated_decoy.py"), "w", encoding="utf-8") as f:
+            f.write("def decoy_only(a: int) -> int:\n    return a\n")
+        with open(os.path.join(self.root, "decoy_file", top), "w", encoding="utf-8") as f:
+            f.write("not a package\n")
 
     def destroy(self) -> None:
         shutil.rmtree(self.base, ignore_errors=True)
@@ -121,6 +134,10 @@ class Sandbox:
             p = os.path.join(self.root, d)
             shutil.rmtree(p, ignore_errors=True)
             os.makedirs(p)
+        for d in ("decoy_pkg", "decoy_file"):
+            shutil.rmtree(os.path.join(self.root, d), ignore_errors=True)
+            os.makedirs(os.path.join(self.root, d))
+        self._make_decoys(self.pkg.get("top") or self.pkg["src_rel"].split("/")[0])
         for dirpath, dirnames, _files in os.walk(os.path.join(self.root, "S")):
             for dn in list(dirnames):
                 if dn == ".mypy_cache":
@@ -244,6 +261,8 @@ def build_job(sb: Sandbox, options: dict, sigma: dict, faults: list, extra: dict
             break
     cwd = {
         "src_testdir": src_testdir,
+        "decoy_pkg": os.path.join(sb.root, "decoy_pkg"),
+        "decoy_file": os.path.join(sb.root, "decoy_file"),
         "root": sb.root,
         "proj": sb.proj,
         "work": os.path.join(sb.root, "S/work"),
